@@ -424,3 +424,22 @@ Example C04_example_stages_and_close :
   map d_hdr (r_log (serve_staged false false 100 cfg neg (mkState [0] false) env (concat (map frame_bytes fs))))
   = map frame_header fs.
 Proof. cbv zeta. split; [repeat constructor; vm_compute; reflexivity|vm_compute; reflexivity]. Qed.
+
+(* WHOEVER AWAITS (round 11).  A caller that gives up (context cancelled) removes its entry from the awaiting map at a moment
+   of its own choosing — before the reply's header is read, or while its payload is arriving.  For the read loop that is
+   just another awaiting state / registration pattern: for every limit, configuration, frames, and ANY TWO awaiting states
+   and environments (who awaits, what handlers do), the loop parses the same headers — each frame's own, in order — and
+   consumes the stream to its end.  Who is handed a message depends on who awaits; where the next message starts does not. *)
+Theorem C04_alignment_whoever_awaits :
+  forall (maxbuf : N) (cfg : config) (fs : list frame) (st st' : state) (env env' : nat -> env_step),
+  Forall frame_wf fs ->
+  map d_hdr (r_log (serve maxbuf cfg st env (concat (map frame_bytes fs)))) = map frame_header fs /\
+  map d_hdr (r_log (serve maxbuf cfg st' env' (concat (map frame_bytes fs)))) = map frame_header fs /\
+  r_rest (serve maxbuf cfg st env (concat (map frame_bytes fs))) = [] /\
+  r_rest (serve maxbuf cfg st' env' (concat (map frame_bytes fs))) = [].
+Proof.
+  intros maxbuf cfg fs st st' env env' H.
+  destruct (serve_headers_whoever_awaits maxbuf cfg fs st env H) as [A B].
+  destruct (serve_headers_whoever_awaits maxbuf cfg fs st' env' H) as [C D]. auto.
+Qed.
+Print Assumptions C04_alignment_whoever_awaits.
